@@ -842,7 +842,7 @@ def run(ctx):
     workdir = os.path.join(common.VERIF, "work", "c17_%d" % os.getpid())
     os.makedirs(workdir, exist_ok=True)
     ctx.cov["rule"] = ("random acyclic module graphs: 1-5 files + main in a temporary directory, nested up to three directories deep (import "
-                       "paths of 1-3 segments, also `self.a.a`), file names drawn from plain names and the names of packages / library "
+                       "paths of 1-3 segments, also `self.a.a`, and one graph in five seeded with paths that differ only in the position of the segment boundary: a/bu, ab/u, a/b/u), file names drawn from plain names and the names of packages / library "
                        "modules (std, io, math, stdio), bodies of 2-8 statements mixing exported/private let, fn, class, "
                        "accessor functions over module state, assignments, whole/renamed/selected-symbol imports (repeated, diamond, "
                        "module importing its own child), imports of the standard library's modules, probes of exported/private/unknown "
